@@ -1,9 +1,9 @@
-\* all histories (to closure) over vecA (u64: 4 per slot) and vecB (24-byte elements straddling slots)
+\* all histories over vecC alone (u8 elements, padded to a word each), lengths 0..5
 CONSTANT UnitWord = 0
-CONSTANT Active = {"vecA", "vecB"}
+CONSTANT Active = {"vecC"}
 CONSTANT Vals = {1, 2}
 CONSTANT Keys = {1, 2}
-CONSTANT MaxLen = 3
+CONSTANT MaxLen = 5
 CONSTANT SliceLens = {0, 1}
 CONSTANT VecArgs = {0, 1, 21}
 SPECIFICATION Spec
